@@ -49,6 +49,7 @@ def plan(tier, seed):
     specs.append({'kind': 'illegal'})
     specs.append({'kind': 'library'})
     specs += [{'kind': 'histories', 'part': i, 'parts': 4, 'tier': tier} for i in range(4)]
+    specs += [{'kind': 'speculation', 'part': i, 'parts': 2, 'tier': tier} for i in range(2)]
     for s in common.shard_seeds(seed, 4 if tier == 'quick' else 16):
         specs.append({'kind': 'exits', 'seed': s, 'count': 40 if tier == 'quick' else 120})
     return specs
@@ -203,6 +204,20 @@ def run_shard(spec):
             for a in (idioms.HISTORY_ARGS if spec['tier'] != 'quick' or tag.startswith('history-nested') else (idioms.HISTORY_ARGS[1], idioms.HISTORY_ARGS[3])):
                 for unchecked in (False, True):
                     run_one(res, src, list(a), 2, unchecked, 'history:' + tag, sites)
+    elif spec['kind'] == 'speculation':
+        # `a ?? b` on int, bool and byte operands in every position (value, condition, loop, and/or operand, first statement of a function):
+        # both outcomes of the speculation land on code that goes on, whatever the registers held before
+        from ..gen import idioms
+        items = [(t, p, idioms.SPEC_BOOL_ARGS) for t, p in idioms.spec_bool_programs()] + [(t, p, idioms.SPEC_ARGS) for t, p in idioms.spec_programs()]
+        for k, (tag, prog, argsets) in enumerate(items):
+            if k % spec['parts'] != spec['part']:
+                continue
+            src = A.render(prog)
+            for j, a in enumerate(argsets):
+                if spec['tier'] == 'quick' and tag.startswith('spec/') and j % 2:
+                    continue
+                for word, unchecked in ((2, False), (3, True)):
+                    run_one(res, src, list(a), word, unchecked, 'speculation:' + tag, sites)
     elif spec['kind'] == 'library':
         # every library routine with empty, one-element and ordinary operands of every storage kind (the routines are
         # loops around Turing jumps: an exit test that halts on both sides is a committed halt), plain and inside try bodies
